@@ -36,7 +36,7 @@ Import ListNotations.
 From LV Require Import Graph.Graph Graph.CorrC01 Graph.Simulate Graph.CorrC17.
 Open Scope Z_scope.
 """
-LIT_MAX_NODES = 12
+LIT_MAX_NODES = 16
 WITH_LOGPROB = os.environ.get("LV_C17_LOGPROB", "") == "1"
 KLASS_LOGPROB = "F9-logprob-parameter-order"
 
